@@ -39,3 +39,10 @@ package sqlc
 //@ func (cc CachedConn) TransactCtx
 //@   property C14
 //@   call TransactCtx#0: assert arg_ctx == ctx && arg_fn == fn
+
+// index read on a miss: the row is written under its primary key with a TTL LONGER than the index entry's (the configured
+// expiry plus a positive safety gap - never shorter, so never zero or negative, which the store would take as "no expiry")
+//@ func (cc CachedConn) QueryRowIndexCtx closure 0
+//@   property C06
+//@   flag callbacks_noheap
+//@   call SetWithExpireCtx#0: assert arg_expire == expire + cacheSafeGapBetweenIndexAndPrimary && cacheSafeGapBetweenIndexAndPrimary > 0 && arg_val == v && arg_ctx == ctx
